@@ -8,9 +8,14 @@ def _make_key(args, kwargs):
     return args, frozenset(kwargs.items())
 
 
+# All caches created by memoize, so that they can be invalidated together
+_MEMOIZE_CACHES = []
+
+
 def memoize(func):
     """Save results of function calls to avoid repeated calculation"""
     memo = {}
+    _MEMOIZE_CACHES.append(memo)
 
     @wraps(func)
     def wrapper(*args, **kwargs):
@@ -46,6 +51,17 @@ def clear_cache(func):
         func.__memoize_cache.clear()
     except AttributeError:
         pass
+
+
+def clear_all_caches():
+    """
+    Clear the caches of all functions decorated by memoize. Cached results
+    of nested calls (e.g. the sub-states of a composite subset state) are
+    stored in separate caches, so all of them need to be invalidated when
+    the underlying data changes.
+    """
+    for memo in _MEMOIZE_CACHES:
+        memo.clear()
 
 
 def memoize_attr_check(attr):
